@@ -87,7 +87,7 @@ InvProt == LET r == Sign1_FromCbor(AsProt) IN (r.ok <=> WFd) /\ (r.ok => r.x.pro
 
 Expect(ty, item) ==
   IF WF(ty, "", item) THEN [accept |-> TRUE, val |-> <<ValueOf(ty, "", item)>>, err |-> "", pinerr |-> FALSE, judge |-> TRUE]
-  ELSE [accept |-> FALSE, val |-> <<>>, err |-> FromCbor(ty, "", item).err,
+  ELSE [accept |-> FALSE, val |-> <<>>, err |-> FromCbor(ty, "", item).err, diag |-> DiagOf(FromCbor(ty, "", item)), text |-> ErrText(FromCbor(ty, "", item)),
         pinerr |-> (ty = "Header" /\ DupOnlyFault), judge |-> TRUE]
 
 Vec(ty, item) == [kind |-> "decode", props |-> <<"C08">>, ty |-> ty, reg |-> "", item |-> item,
